@@ -14,9 +14,10 @@ import gen, spec as specmod
 from configs import CONFIGS, cfg_defines
 
 CBMC_CHECKS = ['--pointer-check', '--bounds-check', '--pointer-overflow-check', '--unsigned-overflow-check',
-               '--signed-overflow-check', '--conversion-check', '--div-by-zero-check', '--pointer-primitive-check']
+               '--signed-overflow-check', '--conversion-check', '--div-by-zero-check', '--pointer-primitive-check', '--object-bits', '10']
 TIMEOUT = int(os.environ.get('VERIF_TIMEOUT', '300'))
 MEM_KB = 12 * 1024 * 1024
+SOLVERS = concurrent.futures.ThreadPoolExecutor(max_workers=int(os.environ.get('VERIF_JOBS', '14')))
 TAG_RE = re.compile(r'\[((?:C\d\d|pre|frame)(?:\s*,\s*(?:C\d\d|pre|frame))*)\]')
 
 
@@ -155,31 +156,56 @@ def prove(built, fn, verbose=False, trace=False, keep=False):
         return res
     flags = list(CBMC_CHECKS) + list(sp.flags)
     flags = [f for f in flags if ('--no' + f[1:]) not in sp.flags and not f.startswith('--no-')]
-    cmd = ['cbmc', gb2, '--json-ui'] + flags
-    res['checker_cmd'] = 'goto-cc --function harness_%s | goto-instrument --dfcc harness_%s --enforce-contract %s %s%s| cbmc %s' % (
+    res['checker_cmd'] = 'goto-cc --function harness_%s | goto-instrument --dfcc harness_%s --enforce-contract %s %s%s| cbmc %s (postconditions solved one per solver instance, the remaining obligations together)' % (
         fn, fn, fn, ''.join('--replace-call-with-contract %s ' % g for g in replaced), '--apply-loop-contracts ' if loops_needed else '', ' '.join(flags))
-    rc, so, se, dt = run(cmd, TIMEOUT)
-    res['solver_s'] = round(dt, 2)
-    if rc == -9:
-        res['status'] = 'undecided'; res['reason'] = 'timeout after %ds' % TIMEOUT
-        res['time_s'] = round(time.time() - t0, 2)
-        return res
+    # property list, then partition: every postcondition in its own solver instance (measured: solving them together is
+    # several times slower than the sum of the single runs), everything else in one instance
+    rc, so, se, dt = run(['cbmc', gb2, '--show-properties', '--json-ui'] + flags, 120)
     try:
-        js = json.loads(so)
+        props = []
+        for item in json.loads(so):
+            if 'properties' in item:
+                props = [p_['name'] for p_ in item['properties']]
     except Exception:
-        res['status'] = 'undecided'; res['reason'] = 'cbmc output not parseable (rc=%s): %s' % (rc, (se or so)[-800:])
+        props = []
+    if not props:
+        res['status'] = 'undecided'; res['reason'] = 'cannot list properties: ' + (se or so)[-500:]
         return res
-    results = None; msgs = []
-    for item in js:
-        if 'result' in item:
-            results = item['result']
-        if item.get('messageType') in ('ERROR', 'WARNING'):
-            msgs.append(item.get('messageText', ''))
+    heavy = [p_ for p_ in props if '.postcondition.' in p_]
+    rest = [p_ for p_ in props if '.postcondition.' not in p_]
+    groups = [[h] for h in heavy]
+    if rest:
+        groups.append(rest)
+    def solve(group):
+        args = []
+        for g in group:
+            args += ['--property', g]
+        return run(['cbmc', gb2, '--json-ui'] + flags + args, TIMEOUT)
+    outs = list(SOLVERS.map(solve, groups))
+    res['solver_s'] = round(sum(o[3] for o in outs), 2)
+    results = []; msgs = []
+    for (rc, so, se, dt), group in zip(outs, groups):
+        if rc == -9:
+            res['status'] = 'undecided'; res['reason'] = 'timeout after %ds on %s' % (TIMEOUT, group[0] if len(group) == 1 else 'the automatic checks')
+            res['time_s'] = round(time.time() - t0, 2)
+            return res
+        try:
+            js = json.loads(so)
+        except Exception:
+            res['status'] = 'undecided'; res['reason'] = 'cbmc output not parseable (rc=%s): %s' % (rc, (se or so)[-800:])
+            return res
+        got = None
+        for item in js:
+            if 'result' in item:
+                got = item['result']
+            if item.get('messageType') in ('ERROR', 'WARNING'):
+                msgs.append(item.get('messageText', ''))
+        if got is None:
+            res['status'] = 'undecided'; res['reason'] = 'no result list from cbmc (rc=%s): %s' % (rc, '; '.join(msgs)[-800:])
+            return res
+        results.extend(got)
     if any('ignoring' in m for m in msgs):
         res['status'] = 'undecided'; res['reason'] = 'solver ignored a quantifier: ' + '; '.join(m for m in msgs if 'ignoring' in m)[:300]
-        return res
-    if results is None:
-        res['status'] = 'undecided'; res['reason'] = 'no result list from cbmc (rc=%s): %s' % (rc, '; '.join(msgs)[-800:])
         return res
     nstep = 0
     for p in results:
@@ -243,7 +269,7 @@ def main():
         wd = workdir()
         try:
             b = build(a.args[0], wd)
-            fns = a.args[1:] or sorted(n for n, s in b.model.specs.items() if s.harness)
+            fns = a.args[1:] or sorted(n for n, s in b.model.specs.items() if s.harness and n in b.model.em.by_cname)
             with concurrent.futures.ThreadPoolExecutor(max_workers=a.j) as ex:
                 futs = {ex.submit(prove, b, fn, a.v, a.trace, a.keep): fn for fn in fns}
                 for fut in concurrent.futures.as_completed(futs):
